@@ -32,6 +32,29 @@ def run(ctx):
         searches += s
         nt += n
         per[th] = s
+    # documents far above the thresholds (2 KiB .. 400 KiB, one 200 KiB line): beyond the scanning oracle,
+    # so the relational statement itself is checked: every setting's result = the result with RE2 disabled
+    searchsem.FILES.append("c28_large_test.go") if "c28_large_test.go" not in searchsem.FILES else None
+    all_ev = []
+    for th in ["-1", "0", "4096", "131072", "200000"]:
+        rc, out, trace = ctx.driver("search", "^TestVerif_C28_Large$", searchsem.FILES, env={"ZOEKT_RE2_THRESHOLD_BYTES": th},
+                                    out="trace_large_%s.ndjson" % th.replace("-", "m"), timeout=1800)
+        if rc != 0:
+            raise vk.Inconclusive("large-document driver failed (threshold %s):\n%s" % (th, out[-2500:]))
+        all_ev += vk.read_ndjson(trace)
+    big = ctx.path("trace_large_all.ndjson")
+    vk.write_ndjson(big, all_ev)
+    acc, rej = ctx.validate_trace("Trace_Threshold", "Trace_Threshold.cfg", big, name="tlc_large", timeout=1800)
+    for r in rej:
+        e = all_ev[r["line"] - 1]
+        base = [x for x in all_ev if x["qi"] == e["qi"] and x["threshold"] == "-1"]
+        ctx.violation("C28:large:%s:threshold=%s" % (r["why"].split(":")[0], e["threshold"]),
+                      {"pattern": e["q"], "case_sensitive": e["cs"], "threshold": e["threshold"], "outcome": e["outcome"],
+                       "files": e["files"], "with_re2_disabled": base[0]["files"] if base else None})
+    ctx.traces_validated += len(all_ev) - len(rej)
+    searches += len(all_ev)
+    nt += sum(1 for e in all_ev if e["files"])
+    per["large"] = len(all_ev)
     ctx.assumptions += ["valid UTF-8 only; patterns from the C02 families (all accepted by RE2)",
                         "go-re2 runs as WASM (wazero) inside the test process"]
     return ctx.finish(evaluations=searches, distinct_nontrivial=nt,
